@@ -7,10 +7,10 @@ Driver for C20.  Everything here is glue (token parser, the concrete family of o
 callables, printing); the functions called are the model's.
 
   bool <bexp tokens> <val>                  -> interp,compiled,evalC(0|1|x),nonRaising
-  sel  <start> <docs> <steps>               -> ids of the last step ("err" = IndexError)
-      start = "doc i" | "node id" | "res" | "fn"
-      docs  = "k tree…"            tree = "T id name nattrs attr… nchildren tree…"
-      steps = "k step…"            step = "S deep roots nq query…" | "G query" | "W entry-query"
+  sel  <start> <docs> <steps>               -> identities (paths "i.j.k") of the last step ("err" = IndexError)
+      start = "doc i" | "node path" | "res" | "fn"
+      docs  = "k tree…"            tree = "T name nattrs attr… nchildren tree…"   (content only: no identity is sent)
+      steps = "k step…"            step = "S deep roots nq query…" | "G query" | "W entry-query" | "R" | "P" | "U query"
   prog <docs> <k statement…>                -> see `runProg`
 -/
 
@@ -105,19 +105,21 @@ def pQuery (σ : Built) : P Query
 
 partial def pTree : P Tree
   | "T" :: r => do
-    let (i, r) ← pNat r
     let (n, r) ← pVal r
     let (k, r) ← pNat r
     let (as, r) ← pMany pVal k r
     let (m, r) ← pNat r
     let (cs, r) ← pMany pTree m r
-    pure (.node i n as cs, r)
+    pure (.node n as cs, r)
   | _ => none
 
 inductive Step where
   | sel (deep roots : Bool) (qs : List Query)
   | get (q : Query)
   | whr (q : EQ)
+  | roots                 -- the `Result.roots` property
+  | parents               -- the `Result.parents` property
+  | upto (q : Query)      -- `Result.upto(q)`
 
 def pStep (σ : Built) : P Step
   | "S" :: r => do
@@ -126,6 +128,9 @@ def pStep (σ : Built) : P Step
     pure (.sel (d != 0) (ro != 0) qs, r)
   | "G" :: r => do let (q, r) ← pQuery σ r; pure (.get q, r)
   | "W" :: r => do let (q, r) ← pEQ σ r; pure (.whr q, r)
+  | "R" :: r => some (.roots, r)
+  | "P" :: r => some (.parents, r)
+  | "U" :: r => do let (q, r) ← pQuery σ r; pure (.upto q, r)
   | _ => none
 
 def toks (f : String) : List String := (f.splitOn " ").filter (· ≠ "")
@@ -151,7 +156,10 @@ def opqEnv : Env := fun k v =>
 def showB (b : Bool) : String := if b then "1" else "0"
 def showOut : Out → String | .ret b => showB b | .raise => "x"
 
-def showIds (xs : List Nat) : String := encList (xs.map toString)
+/-- identities are printed as paths: "0.2.1" -/
+def showPath (p : List Nat) : String := ".".intercalate (p.map toString)
+def showIds (xs : List (List Nat)) : String := encList (xs.map showPath)
+def decPath (f : String) : Option (List Nat) := (f.splitOn ".").mapM (·.toNat?)
 
 /-- the children a step works on: an Entry's own children, or a Result's grandchildren -/
 inductive St where
@@ -168,22 +176,19 @@ def stepNodes (s : St) (st : Step) : Option (List Node) :=
   | .get q, .result ch => some (resultGetitem opqEnv ch q)
   | .whr q, .entry e => some (entryWhere opqEnv e q)
   | .whr q, .result ch => some (resultWhere opqEnv ch q)
-  | .get _, .fn _ => none
-  | .whr _, .fn _ => none
+  | .roots, .result ch => some (rootsOf ch)
+  | .parents, .result ch => some (parentsOf ch)
+  | .upto q, .result ch => some (uptoOf (q.eval opqEnv) ch)
+  | _, _ => none
 
-def stepFinal (s : St) (st : Step) : Option (Option (List Nat)) :=
+def stepFinal (s : St) (st : Step) : Option (Option (List (List Nat))) :=
   match st, s with
   | .sel true roots qs, .entry e => some (entryFind opqEnv e qs roots)
   | .sel false roots qs, .entry e => some (entrySelect opqEnv e qs false roots)
   | .sel true roots qs, .result ch => some (resultFind opqEnv ch qs roots)
   | .sel false roots qs, .result ch => some (resultSelect opqEnv ch qs false roots)
   | .sel deep roots qs, .fn ns => some (select opqEnv qs ns deep roots)
-  | .get q, .entry e => some (some ((entryGetitem opqEnv e q).map Node.id))
-  | .get q, .result ch => some (some ((resultGetitem opqEnv ch q).map Node.id))
-  | .whr q, .entry e => some (some ((entryWhere opqEnv e q).map Node.id))
-  | .whr q, .result ch => some (some ((resultWhere opqEnv ch q).map Node.id))
-  | .get _, .fn _ => none
-  | .whr _, .fn _ => none
+  | st, s => (stepNodes s st).map (fun ns => some (ns.map Node.path))
 
 def runSteps : St → List Step → String
   | _, [] => "bad-op"
@@ -196,27 +201,28 @@ def runSteps : St → List Step → String
     match st with
     | .sel _ true _ => "bad-op"          -- roots only in the last step
     | _ =>
-      match stepNodes s st with
-      | some ns => runSteps (.result ns) rest
-      | none => "err"
+      match st, stepNodes s st with
+      | _, some ns => runSteps (.result ns) rest
+      | .sel .., none => "err"
+      | _, none => "bad-op"
 
-/-- where a pipeline starts: `doc i` | `node id` | `res` | `fn` -/
+/-- where a pipeline starts: `doc i` | `node path` | `res` | `fn`; document number i has identity [i] -/
 def startState (docs : List Tree) : List String → Option St
-  | ["doc", i] => do let i ← i.toNat?; let t ← docs[i]?; pure (.entry (top t))
-  | ["node", i] => do                   -- an inner entry, found by its identity
-    let i ← i.toNat?
-    let n ← (flatten (docs.map top)).find? (fun n => n.id == i)
+  | ["doc", i] => do let i ← i.toNat?; let n ← (tops docs)[i]?; pure (.entry n)
+  | ["node", p] => do                   -- an inner entry, found by its identity
+    let p ← decPath p
+    let n ← (flatten (tops docs)).find? (fun n => n.path == p)
     pure (.entry n)
-  | ["res"] => some (.result (docs.map top))
-  | ["fn"] => some (.fn (docs.map top))
+  | ["res"] => some (.result (tops docs))
+  | ["fn"] => some (.fn (tops docs))
   | _ => none
 
 /-- a program: statements run in order, the combinations built so far are threaded through
   LB <bterm>                    x_n := a Boolean (operands may be `ref i`)        (model: letB)
   LE <eq>                       e_n := an entry query (operands may be `eref i`)
   TB i k v…                     truth table of x_i: per value "<interp><compiled>"
-  TE i k id…                    truth table of e_i on the nodes with these identities
-  Q a b <steps>                 a pipeline started at `a b` ("doc 0", "node 7", "res -", "fn -")
+  TE i k path…                  truth table of e_i on the nodes with these identities
+  Q a b <steps>                 a pipeline started at `a b` ("doc 0", "node 0.2.1", "res -", "fn -")
 answers of TB / TE / Q joined by ';' -/
 partial def runProg (docs : List Tree) (σ : Built) (n : Nat) (ts : List String) (acc : List String) : Option (List String) :=
   match n with
@@ -238,10 +244,11 @@ partial def runProg (docs : List Tree) (σ : Built) (n : Nat) (ts : List String)
       runProg docs σ n r (out :: acc)
     | "TE" :: r => do
       let (i, r) ← pNat r
-      let (ids, r) ← pCounted pNat r
+      let (k, r) ← pNat r
+      let (ps, r) ← pMany (fun ts => match ts with | t :: r => (decPath t).map (fun p => (p, r)) | [] => none) k r
       let e ← σ.es[i]?
-      let all := flatten (docs.map top)
-      let cells ← ids.mapM (fun i => (all.find? (fun n => n.id == i)).map (fun n => showB (e.eval opqEnv n)))
+      let all := flatten (tops docs)
+      let cells ← ps.mapM (fun p => (all.find? (fun n => n.path == p)).map (fun n => showB (e.eval opqEnv n)))
       runProg docs σ n r (String.join cells :: acc)
     | "Q" :: a :: b :: r => do
       let st ← startState docs (if b = "-" then [a] else [a, b])
